@@ -356,3 +356,57 @@ c.extra_shapes = [PyInt("parent_global", 0, None, 0, 64), PyInt("parent_own", 0,
 c.native = False
 c.models = [(REG.RegisterObject.__dict__["_unit_count_"].__func__, lambda it, cls: 16)]
 con.cases.append(c)
+
+
+# ---- Register._init_from_device: the notification objects belong to the INSTANCE -------------------------------------------------
+# "hardware-side notifications occur exactly when the corresponding access completes": an access to one placement of a
+# register type (Block[0x00]) notifies THAT placement's PushOnNotify / FlagOnNotify objects.  Every instance therefore gets its
+# own notification objects in its own `_notifications_` dictionary -- a dictionary shared by the class would make all placements
+# of a register type notify the objects of the instance constructed last.
+class _Notify:
+    """a notification member type (PushOnNotify, FlagOnNotify ...): instantiated once per register instance"""
+
+
+def init_device_spec(names):
+    def spec(sx, self, parent, name):
+        real = sx.real_args[0]
+        shared = real.cls.params["_notifications_"]
+
+        def holds(res):
+            own = real.fields.get("_notifications_")
+            if own is None or own is shared or shared != {"<class level>": "<dict>"}:
+                return False  # no dictionary of its own / entries written into the class-level one
+            if list(own.keys()) != list(names):
+                return False
+            for n in names:
+                o = own[n]
+                if not (isinstance(o, SObj) and o.kind is _Notify and real.fields.get(n) is o):
+                    return False
+            return len({id(own[n]) for n in names}) == len(names) and sx.it.order == ["base-init", "config"]
+
+        return C.Pred(holds, "own dictionary: every notification name -> a new object that is also the instance attribute of that name")
+
+    return spec
+
+
+def _reg_cls_attr(it, cls, name):
+    if hasattr(cls, "params") and name in cls.params:
+        return cls.params[name]
+    return I._MISSING
+
+
+I.CLS_ATTR_MODELS[REG.Register] = _reg_cls_attr
+con = contract("cohdl.std.reg.reg:Register._init_from_device", PROPS)
+for names in ((), ("on_write",), ("on_write", "on_read", "flag")):
+    RSELF = Built([], (lambda ns: lambda env: SObj(I.SCls(REG.Register, _notification_types_={n: _Notify for n in ns}, _notifications_={"<class level>": "<dict>"})))(names), lambda a: "None", lambda a: None)
+    c = Case(f"{len(names)}-notification-members", [RSELF, Built([], lambda env: "PARENT", lambda a: "None", lambda a: None), NAME], init_device_spec(names))
+    c.native = False
+    c.models = [(REG.RegisterObject.__dict__["__init__"], lambda it, self, parent, name: it.order.append("base-init")),
+                (REG.Register.__dict__["_init_from_config"], lambda it, self: it.order.append("config"))]
+    c.interp_flags = {"class_call_models": {_Notify: lambda it, args, kw: SObj(_Notify)}}
+
+    def _init_dev_setup(it, ctx, args, env):
+        it.order = []
+
+    c.setup = _init_dev_setup
+    con.cases.append(c)
